@@ -786,7 +786,7 @@ fn main() {
     let mut meta = Meta::default();
     let hdr = "From TeraV Require Import Model.Value Model.Instr Model.VM Model.Taint Model.WorldC01 Corr.CorrC01.";
     let mut sink = Sink::new(&args.out, "c01vm", hdr, "check_c01");
-    sink.shard_cap_set(if thorough { 100 } else { 20 });
+    sink.shard_cap_set(if thorough { 40 } else { 20 });
 
     // ---- programs
     let n_gen = if thorough { 9000 } else { 460 };
@@ -836,7 +836,7 @@ fn main() {
     let mut oracle_only = 0usize;
     let mut oracle_only_nontrivial = 0usize;
     let mut skipped_register = 0usize;
-    let mut model_budget: usize = if thorough { 4000 } else { 320 };
+    let mut model_budget: usize = if thorough { 3000 } else { 320 };
     let mut distribution: std::collections::BTreeMap<String, usize> = Default::default();
 
     for (pi, (p, smode)) in progs.iter().enumerate() {
